@@ -25,7 +25,29 @@ def groups : List (String × String × String × List (String × Nat)) := [
 def render (l : List (Nat × Nat)) : String :=
   "[\n" ++ ",\n".intercalate (l.map fun (k, x) => s!"  ({k}, {x})") ++ "\n]"
 
-def main : IO Unit := do
+def render4 (l : List (Nat × Nat × Nat × Nat)) : String :=
+  "[\n" ++ ",\n".intercalate (l.map fun (a, b, c, d) => s!"  ({a}, {b}, {c}, {d})") ++ "\n]"
+
+def specMain : IO Unit := do
+  IO.println "import KmipModel.Expect
+/-
+  SpecStructs.fields with names as numbers and tag names resolved through the registry; literal table certified
+  by `decide +kernel` (slow kernel string processing, cached: depends only on hand-written files).
+  Regenerate with scripts/gen_registry_keys.sh after editing SpecStructs/Registry/Expect.
+-/
+namespace Kmip.SpecKeys
+open Kmip Kmip.Expect
+"
+  IO.println s!"def fields : List (Nat × Nat × Nat × Nat) := {render4 specFieldKeys}\n"
+  IO.println "theorem fields_ok : fields = specFieldKeys := by decide +kernel\n"
+  IO.println s!"def knownNesting : List (Nat × Nat × Nat) := {Expect.knownNesting}\n"
+  IO.println "theorem knownNesting_ok : knownNesting = Expect.knownNesting := by decide +kernel\n"
+  IO.println s!"def offWire : List (Nat × Nat) := {Expect.offWire.map fun (a, b) => (keyOf a, keyOf b)}\n"
+  IO.println "theorem offWire_ok : offWire = Expect.offWire.map (fun (a, b) => (keyOf a, keyOf b)) := by decide +kernel\n"
+  IO.println "end Kmip.SpecKeys"
+
+def registryMain : IO Unit := do
+
   IO.println "import KmipModel.Expect
 /-
   Registry entries keyed by the NUMBER of their expected Go identifier (see Expect.keyOf): literal tables,
@@ -48,3 +70,6 @@ theorem anyTagK_ok : anyTagK = keyOf \"ANY_TAG\" := by decide +kernel
     IO.println s!"def {name} : List (Nat × Nat) := {render (groupKeys Expect.aliasK pre reg)}\n"
     IO.println s!"theorem {name}_ok : {name} = groupKeys aliasK \"{pre}\" ({expr}) := by decide +kernel\n"
   IO.println "end Kmip.RegistryKeys"
+
+def main (args : List String) : IO Unit := do
+  if args == ["spec"] then specMain else registryMain
